@@ -9,7 +9,9 @@ package main
 //      reachable from the playlist it was pointed at, in the muxer's order (the leading stream first for
 //      the fMP4 variants): same codec type, clock rate = the muxer track's ClockRate (90000 for MPEG-TS),
 //      for the fMP4 variants codec parameters equal to a set the muxer held between the opening of the first part /
-//      segment of that track the client downloaded and the moment the client had the init (see paramWindow),
+//      segment of that track the client downloaded and the moment the client had the init (see paramWindow;
+//      parameter sets sent ahead of the key frame they apply to replace the previous set at that key frame:
+//      until then both are the muxer's, see paramAt.Eff),
 //      and for every track the muxer advertised as an audio rendition (EXT-X-MEDIA in the index.m3u8 the
 //      stub served to this very client) the advertised NAME / LANGUAGE / DEFAULT.
 //   U  units: every callback's payload is byte-identical to written units of that track (video: the
@@ -18,7 +20,8 @@ package main
 //      OBUs are compared in the low-overhead form, i.e. with their size field, in which MP4 stores them),
 //      each written unit at most once, in writing order, and for the MPEG-TS and fMP4 variants the
 //      delivered units of a track are consecutive written units (histories contain no unit the muxer
-//      drops in mid-stream).
+//      drops in mid-stream), also across the segments it downloaded: a client that fell behind so far that
+//      the segment after its last one has left the playlist (pairs with Lag) may stop, it must not skip.
 //   P  PTS (and DTS where the callback has one) = (written - written DTS of the first delivered unit of
 //      the client's leading track), as exact rationals in seconds, times the reported clock rate, +-1 tick.
 //   A  AbsoluteTime, when available, = NTP written with the unit, within [-(1 ms + e), +e], e = 2 ticks
@@ -678,8 +681,9 @@ func paramWindow(h *history, res *pairResult, cr *clientRun, mux int) (lo, hi in
 }
 
 // forcedSegmentStillOpen: the stale init is explained by finding F27 and by nothing else. Let c be the write
-// of the parameter change that established the set in force at min(lo, hi) - the set the client should have
-// reported. True iff (1) the leading stream rotated its segment during write c (the change opened a new
+// at which the parameter change that established the set in force at min(lo, hi) - the set the client should
+// have reported - took effect (the write of the change, or of the next key frame when the parameter sets were
+// sent ahead). True iff (1) the leading stream rotated its segment during write c (the change opened a new
 // segment), and (2) the write that CLOSED that segment (the next rotation) had not completed when the
 // client's request for this stream's init STARTED (no rotation after c at all counts as not completed).
 // Everything else - no rotation at the change, or an init requested after the forced segment was complete -
@@ -692,7 +696,7 @@ func forcedSegmentStillOpen(res *pairResult, cr *clientRun, mux int, lo, hi int)
 	c := -1
 	for _, pa := range res.ParamLine[mux] {
 		if pa.Op <= at {
-			c = pa.Op
+			c = pa.Eff
 		}
 	}
 	if c < 0 {
